@@ -28,13 +28,15 @@ class C12(PropBase):
     RUNS = {"quick": 12000, "thorough": 160000}
     STEPS = {"quick": 70, "thorough": 140}
     REQUIRED_CELLS = tuple("amount:%s" % c for c in ("none", "zero", "one", "partial", "exact", "plus1", "huge"))
-    REQUIRED_REACH = ("partial_then_send", "drain_zero_with_pending", "refused_call_with_pending", "drain_after_close")
+    REQUIRED_REACH = ("partial_then_send", "drain_zero_with_pending", "refused_call_with_pending", "drain_after_close",
+                      "send_failed_while_encoding")
 
     def init_op(self, rng):
         role = "s" if rng.random() < 0.55 else "c"
         return {"op": "init", "sessions": [{"name": "S", "role": role}, {"name": "T", "role": role}],
                 "illegal_p": rng.choice([0.0, 0.1, 0.3]), "chunk": rng.choice(["mixed", "mixed", "byte", "whole"]),
-                "drain_bias": rng.choice(["mixed", "mixed", "tiny", "lazy"]), "big": rng.choice([0.05, 0.2])}
+                "drain_bias": rng.choice(["mixed", "mixed", "tiny", "lazy"]), "big": rng.choice([0.05, 0.2]),
+                "bad_text": rng.choice([0.0, 0.0, 0.04])}
 
     def make(self, init):
         st = St(__import__("simldap.world", fromlist=["World"]).World(init))
@@ -47,7 +49,7 @@ class C12(PropBase):
         w = st.w
         init = w.init
         S = w.s["S"]
-        g = Gen(rng, big=init["big"])
+        g = Gen(rng, big=init["big"], bad_text=init.get("bad_text", 0.0))
         model = S.model
         pend = len(w.pending("S"))
         x = rng.random()
@@ -150,6 +152,8 @@ class C12(PropBase):
                         op["m"], len(e)))
                 if len(S.drained) < len(T.drained):
                     st.hit("refused_call_with_pending")
+                if evt.get("arg_error"):
+                    st.hit("send_failed_while_encoding")
             else:
                 self._one_pdu(op, evt, e)
                 if st.x["partial_pending"]:
